@@ -387,3 +387,29 @@ pub async fn run_tcp_server(ctx: Arc<FrontendContext>) -> anyhow::Result<()> {
     info!("TCP server shutdown complete");
     Ok(())
 }
+
+/// Verification hook (feature `verif`): the listener's own authentication gate,
+/// callable on one input line without a socket.
+#[cfg(feature = "verif")]
+pub mod verif_api {
+    use super::{AuthManager, TcpAuthState, check_auth};
+    use std::sync::Arc;
+
+    pub struct GateState(TcpAuthState);
+
+    impl GateState {
+        pub fn new(auth_manager: Option<Arc<AuthManager>>, client_ip: &str) -> Self {
+            Self(TcpAuthState::new(auth_manager, client_ip.to_string()))
+        }
+    }
+
+    /// (command to parse, authenticated user id, session token issued by AUTH); None = rejected
+    pub async fn gate(
+        input: &str,
+        state: &mut GateState,
+    ) -> Option<(String, Option<String>, Option<String>)> {
+        check_auth(input, &mut state.0)
+            .await
+            .map(|(cmd, _, user, token)| (cmd.to_string(), user, token))
+    }
+}
